@@ -13,7 +13,9 @@ KEYWORDS = {'int', 'short', 'long', 'float', 'double', 'char', 'typedef', 'struc
 # in-domain string alphabet: everything printable the format can carry (no double quote, no non-ASCII)
 STRCH = 'abcXYZ019_-+.:;,/()[]<>=!?*&^%$@~|\'`{}# \t\\'
 # words with a meaning elsewhere in the format (or in the implementation) that are nevertheless legal pair keywords
-RESERVED_KEYS = ['enum', 'struct', 'typedef', 'int', 'short', 'long', 'float', 'double', 'char', 'Enum', 'STRUCT', 'unsigned']
+# ('typedef' itself is not among them: a line that starts with it starts a definition, which may continue on the next lines -
+# `typedef` / `struct {...` on two lines is a definition, not two pairs)
+RESERVED_KEYS = ['enum', 'struct', 'int', 'short', 'long', 'float', 'double', 'char', 'Enum', 'STRUCT', 'unsigned']
 
 
 def pair_key(rng, lo=1, hi=8, p_reserved=0.2):
